@@ -409,38 +409,75 @@ def A5_overlap_guard(repo, clause):
     out_loop = [(u, v) for (u, v) in updates if RL.loop not in list(fn.ancestors(u))]
     floor("A5", "updates of the running deletion set inside the match loop", len(in_loop), 1)
     flag_params = set(fn.params)
+
+    def _unset(e):
+        e = expand(fn, e)
+        while isinstance(e, ast.Call) and call_name(e) in ("set", "frozenset", "list", "tuple") and len(e.args) == 1:
+            e = expand(fn, e.args[0])
+        return nf(e)
+
+    def truth_table(guards, L):
+        """Truth table of the conjunction of guards over the atoms (DISJOINT(D, L), FLAG); None if another atom occurs."""
+        import itertools as _it
+        flags_seen = set()
+
+        def ev(t, env):
+            if isinstance(t, ast.BoolOp):
+                vals = [ev(v, env) for v in t.values]
+                if any(v is None for v in vals):
+                    return None
+                return all(vals) if isinstance(t.op, ast.And) else any(vals)
+            if isinstance(t, ast.UnaryOp) and isinstance(t.op, ast.Not):
+                v = ev(t.operand, env)
+                return None if v is None else (not v)
+            other = _disjoint_other(t, D)
+            if other is not None:
+                if _unset(other) == _unset(L):
+                    return env["D"]
+                return None
+            if isinstance(t, ast.Name) and t.id in flag_params:
+                flags_seen.add(t.id)
+                return env["F"]
+            # `D & L` truthiness / len(D & L) > 0 style overlap tests
+            if isinstance(t, ast.BinOp) and isinstance(t.op, ast.BitAnd):
+                names = {ast.unparse(t.left), ast.unparse(t.right)}
+                if D in names and any(_unset(x) == _unset(L) for x in (t.left, t.right)):
+                    return not env["D"]
+            return None
+        table = {}
+        for d, f in _it.product([True, False], repeat=2):
+            env = {"D": d, "F": f}
+            val = True
+            for t, pol, kind in guards:
+                v = ev(t, env)
+                if v is None:
+                    return None, flags_seen
+                val = val and (v == pol)
+            table[(d, f)] = val
+        return table, flags_seen
+
+    want_update = {(d, f): (d or f) for d in (True, False) for f in (True, False)}
+    want_update_noflag = {(d, f): d for d in (True, False) for f in (True, False)}
+    want_raise = {k: not v for k, v in want_update.items()}
+    want_raise_noflag = {k: not v for k, v in want_update_noflag.items()}
     guard_ifs = []
+    Ls = []
     for u, v in in_loop:
         L = v
-        gs = norm_guards(fn, u, stop=RL.loop)
-        found = None
-        for t, pol, kind in gs:
-            parts = _or_parts(t) if pol else None
-            if parts is None:
-                # early-exit form: "if not (disjoint or flag): raise" appears as (Or, True) after strip_not;
-                # "if overlap and not flag: raise" is the De Morgan dual with polarity False
-                parts = _demorgan_parts(t) if not pol else None
-            if parts is None:
-                continue
-            dis = [p for p in parts if _is_disjoint_test(fn, p, D)]
-            flags = [p for p in parts if isinstance(p, ast.Name) and p.id in flag_params]
-            if dis and len(dis) + len(flags) == len(parts):
-                found = (t, dis[0], flags)
-        ok = found is not None
-        detail = "update of %s is not guarded by a disjointness test against this match's deletion set" % D
-        if ok:
-            t, dis, flags = found
-            other = _disjoint_other(dis, D)
-            def _unset(e):
-                e = expand(fn, e)
-                while isinstance(e, ast.Call) and call_name(e) in ("set", "frozenset", "list", "tuple") and len(e.args) == 1:
-                    e = expand(fn, e.args[0])
-                return nf(e)
-            same_set = other is not None and _unset(other) == _unset(L)
-            ok = same_set
-            detail = "update guarded by %s; tested set %s the set that is added (%s)" % (
-                ast.unparse(t), "is" if same_set else "IS NOT", ast.unparse(L))
-            guard_ifs.append((u, t))
+        Ls.append(L)
+        gs = [g for g in norm_guards(fn, u, stop=RL.loop)]
+        rel = [g for g in gs if any(isinstance(x, ast.Name) and x.id == D for x in ast.walk(g[0])) or
+               (isinstance(g[0], ast.Name) and g[0].id in flag_params) or any(isinstance(x, ast.Name) and x.id in flag_params and x.id.startswith("ignore") for x in ast.walk(g[0]))]
+        table, flags = truth_table(rel, L)
+        ok = table is not None and rel != [] and (table == want_update or table == want_update_noflag)
+        if table is None:
+            detail = "update of %s is guarded by %s, which is not a test of disjointness between %s and the set that is added (%s)" % (
+                D, [ast.unparse(t) for t, p, k in rel] or "nothing", D, ast.unparse(L))
+        elif not rel:
+            detail = "update of %s is not guarded by a disjointness test against this match's deletion set" % D
+        else:
+            detail = "update executes exactly when (%s is disjoint from the set that is added) OR the ignore flag is set: %s (guards: %s)" % (
+                D, ok, [("" if p else "not ") + ast.unparse(t)[:70] for t, p, k in rel])
         obs.append(Ob("A5", clause, fn, u, ok, detail, slot="guarded-update"))
         # this match's deletion set = set(match) - set(retained.values())
         Le = expand(fn, L)
@@ -461,7 +498,7 @@ def A5_overlap_guard(repo, clause):
         obs.append(Ob("A5", clause, fn, u, shape_ok, detail, slot="deletion-set-shape"))
         if retained is not None:
             obs.extend(_A5_same_map(fn, RL, retained, u, clause))
-    # the false edge raises the dedicated exception and cannot reach a normal return
+    # the refusal: raised exactly when the update would not happen, and it cannot reach a normal return
     raises = [n for n in fn.own_nodes() if isinstance(n, ast.Raise) and n.exc is not None
               and "AtomsShouldNotBeDeletedTwice" in ast.unparse(n.exc)]
     if not raises:
@@ -469,19 +506,19 @@ def A5_overlap_guard(repo, clause):
                       "the match loop never raises the dedicated overlap error: overlapping deletions are not refused",
                       construct="raise AtomsShouldNotBeDeletedTwice()", slot="raise"))
     for r in raises:
-        gs = norm_guards(fn, r, stop=RL.loop)
+        gs = [g for g in norm_guards(fn, r, stop=RL.loop)]
+        rel = [g for g in gs if any(isinstance(x, ast.Name) and x.id == D for x in ast.walk(g[0])) or
+               any(isinstance(x, ast.Name) and x.id in flag_params and x.id.startswith("ignore") for x in ast.walk(g[0]))]
         neg = False
-        for t, pol, kind in gs:
-            for (u, gt) in guard_ifs:
-                if nf(t) == nf(gt) and pol is False:
-                    neg = True
-                if not pol and _demorgan_parts(t) is None and _or_parts(t) is not None and nf(t) == nf(gt):
-                    neg = True
+        for L in Ls:
+            table, flags = truth_table(rel, L)
+            if table is not None and rel and (table == want_raise or table == want_raise_noflag):
+                neg = True
         in_handler = any(isinstance(a, ast.Try) for a in fn.ancestors(r))
         ok = neg and not in_handler and RL.loop in list(fn.ancestors(r))
         obs.append(Ob("A5", clause, fn, r, ok,
-                      "raise is taken exactly when the guard of the update fails (negation of the same condition)=%s, "
-                      "not inside a try/handler of this function=%s" % (neg, not in_handler), slot="raise"))
+                      "raise is taken exactly when the running set overlaps this match's deletion set and the ignore flag is off=%s (guards: %s), "
+                      "not inside a try/handler of this function=%s" % (neg, [("" if p else "not ") + ast.unparse(t)[:60] for t, p, k in rel], not in_handler), slot="raise"))
     # no handler in the function swallows it
     tries = [n for n in fn.own_nodes() if isinstance(n, ast.Try)]
     obs.append(Ob("A5", clause, fn, fn.node, not tries, "the function has no try/except that could swallow the refusal",
